@@ -168,6 +168,7 @@ def run(ctx):
     ctx.correspondence("Model.Gen3.permute vs the argument order the evaluators actually used (read back from paths)", len(cases), mism)
     no_path_cases(ctx, S, ns)
     spec_reading_cases(ctx)
+    helper_subroutine_cases(ctx)
     branch_selected_cases(ctx, S)
     no_switch_cases(ctx, S)
     tone_list_cases(ctx, S)
@@ -454,6 +455,51 @@ def spec_reading_cases(ctx):
     ctx.count("spec-reading kernel x 2 specs alternating x (4 routes + PathVisualizer on both compilations) x fwd/rev: agree", n_ok)
 
 
+def helper_subroutine_cases(ctx):
+    """device functions, forward and REVERSED, that are already constants of a helper subroutine compiled on its own (plain @move), and two
+    DIFFERENT tweezer kernels that share one name, reached from one kernel: called through the helper from kernels on every route, the
+    plays are the natively traced paths of the right kernel, in the right direction"""
+    from props.c02 import _rev_abs
+    S = tweezer_prog.harness_spec()
+    mk = lambda dy: ('@tweezer\ndef kz(p0: float):\n    z = spec.get_static_trap(zone_id="traps")\n    s = grid.sub_grid(z, [0], [1])\n    action.set_loc(s)\n    action.turn_on([0], [0])\n'
+                     f'    action.move(grid.shift(s, p0 * spec.get_float_constant(constant_id="pitch"), {dy}))\n    action.move(grid.shift(s, p0, {dy} + 1.0))\n')
+    src_a, src_b = mk("0.5"), mk("4.0")
+    kz_a, kz_b = kernels.define(src_a)["kz"], kernels.define(src_b)["kz"]
+    helpers = ("@move\ndef there_and_back(x0: float):\n    f = schedule.device_fn(kz_a, [0], [0])\n    r = schedule.reverse(f)\n    r(x0)\n    f(x0)\n    schedule.reverse(r)(p0=x0)\n\n"
+               "@move\ndef other(x0: float):\n    g = schedule.device_fn(kz_b, [0], [0])\n    g(x0)\n    schedule.reverse(g)(x0)\n\n")
+    ns = kernels.define(helpers, kz_a=kz_a, kz_b=kz_b)
+    ref = {}
+    for tag, ksrc in (("a", src_a), ("b", src_b)):
+        fwd = tc.ref_trace(tc.run_native(ksrc, "kz", (2.0,), S)[1])
+        ref[tag + "f"], ref[tag + "r"] = pos_text(fwd), pos_text(_rev_abs(fwd))
+    want = [ref["ar"], ref["af"], ref["af"], ref["bf"], ref["br"], ref["ar"], ref["af"], ref["af"], ref["af"], ref["bf"], ref["br"], ref["ar"]]
+    n_ok = 0
+    for rname, dec, plain, byparam in ROUTES:
+        arg = "x0" if byparam else "2.0"
+        src = (f"@move{dec}\ndef main({'x0: float' if byparam else ''}):\n    there_and_back({arg})\n    other({arg})\n    there_and_back(2.0)\n"
+               f"    fa = schedule.device_fn(kz_a, [0], [0])\n    fb = schedule.device_fn(kz_b, [0], [0])\n    fa({arg})\n    fb({arg})\n    schedule.reverse(fb)(p0={arg})\n    schedule.reverse(fa)({arg})\n")
+        rep = {"helper_subroutines": True, "route": rname, "main": src}
+        ctx.evaluations += 1
+        try:
+            m = kernels.define(src, S=S, there_and_back=ns["there_and_back"], other=ns["other"], kz_a=kz_a, kz_b=kz_b)["main"]
+            st, evs, extra = events.run_events(m, (2.0,) if byparam else (), S, plain=plain)
+        except Exception as e:
+            st, evs, extra = "err", [], f"{type(e).__name__}: {e}"
+        if st != "ok" or [e[0] for e in evs] != ["play"] * len(want):
+            ctx.fail({"kind": "no-path", "route": rname, "helper_subroutines": True}, rep, f"{rname}: device functions held as constants of helper subroutines were not all played: {str(extra)[:120]} ({len(evs)} events)")
+            continue
+        got = [pos_text(tc.abstract_path(e[1].path)) for e in evs]
+        bad = [j for j in range(len(want)) if got[j] != want[j]]
+        if bad:
+            j = bad[0]
+            ctx.fail({"kind": "wrong-path", "route": rname, "helper_subroutines": True, "play": j}, rep,
+                     f"{rname}: play {j} of a kernel calling helper subroutines (forward / reversed constants, two kernels of one name) is {got[j][:110]} expected {want[j][:110]}")
+        else:
+            n_ok += 1
+            ctx.nt(("helper-subroutines", rname))
+    ctx.count("helper subroutines holding forward / reversed device functions of two same-named kernels x routes: agree", n_ok)
+
+
 def _visualized(m, args, S):
     """the paths the library's PathVisualizer (a spec-carrying interpreter) hands to its renderer"""
     from vcommon import stubs
@@ -639,4 +685,13 @@ def no_path_cases(ctx, S, ns):
 
 
 def replay(data):
+    if data["input"].get("helper_subroutines"):
+        class C:
+            def __init__(s): s.fails, s.evaluations = [], 0
+            def fail(s, sig, rep, what): s.fails.append(what)
+            def nt(s, *a): pass
+            def count(s, *a): pass
+        c = C()
+        helper_subroutine_cases(c)
+        return bool(c.fails), (c.fails or ["every play is the path of its own kernel in its own direction"])[0][:200]
     return True, "re-run bin/check C05 (inputs are enumerated): " + str(data.get("what"))
